@@ -400,6 +400,15 @@ def judge_c13(r, ref_out, names):
     """Runs with at least one abnormal worker death."""
     deaths = r.deaths
     if not deaths:
+        # an injected failure (allocation error / exit request inside a worker) that did not end in an
+        # abnormal death: the code under test absorbed it.  C13's last clause is unconditional: the
+        # command must then not report success for an output that is missing records.
+        if r.fault_log and not r.hang and r.outcome is not None:
+            oc = r.outcome
+            if (oc[0] == "returned" or (oc[0] == "exit" and oc[1] == 0)) and col1(r.out or "") != names:
+                return ("success-with-missing-records", "exit status 0 after a failure inside a worker, output has %d of %d records" % (len((r.out or "").splitlines()), len(names)))
+        if r.fault_log and r.hang:
+            return ("hang", "%s: %s" % (r.hang[0], r.hang[1]))
         return None
     rel = relevant_deaths(r)
     if r.hang:
